@@ -252,6 +252,11 @@ int comp_synth()
         else if(o == "alloc" && a.size() == 1) { opn2_setChannelAllocMode(dev, (int)a[0]); ret << "-"; }
         else if(o == "vm" && a.size() == 1) { opn2_setVolumeRangeModel(dev, (int)a[0]); ret << "-"; }
         else if(o == "devid" && a.size() == 1) ret << opn2_setDeviceIdentifier(dev, (unsigned)a[0]);
+        else if(o == "chips" && a.size() == 1) ret << opn2_setNumChips(dev, (int)a[0]);
+        else if(o == "emu" && a.size() == 1) ret << opn2_switchEmulator(dev, (int)a[0]);
+        else if(o == "reset") { opn2_reset(dev); ret << "-"; }
+        else if(o == "chiptype" && a.size() == 1) { opn2_setChipType(dev, (int)a[0]); ret << "-"; }
+        else if(o == "runatpcm" && a.size() == 1) { opn2_setRunAtPcmRate(dev, (int)a[0]); ret << "-"; }
         else { std::cout << "bad-op\n"; continue; }
         std::cout << "ret=" << ret.str() << " " << snapshot(dev, *st) << "\n";
         std::cout.flush();
